@@ -1,4 +1,4 @@
 SPECIFICATION TraceSpec
 CONSTANTS
-  Mgrs = {"sync", "async"}
+  Mgrs = {"sync", "async", "sync_ref", "async_ref"}
 POSTCONDITION AllConsumed
